@@ -219,7 +219,9 @@ func (r *FileRestorer) updateImports() error {
 			if n.Path == "" {
 				return true
 			}
-			if n.Path == r.Path {
+			if n.Path == stripVendor(r.Path) {
+				// (the decorator strips the vendor prefix from the paths it assigns, and from its own
+				// path before it decides that an identifier is local)
 				return true
 			}
 			packagesInUse[n.Path] = true
@@ -536,7 +538,7 @@ func (r *FileRestorer) restoreIdent(n *dst.Ident, parentName, parentField, paren
 			panic(fmt.Sprintf("Path %s set on illegal Ident %s: parentName %s, parentField %s, parentFieldType %s", n.Path, n.Name, parentName, parentField, parentFieldType))
 		}
 
-		if n.Path != r.Path {
+		if n.Path != stripVendor(r.Path) {
 			name = r.packageNames[n.Path]
 		}
 
